@@ -1,1 +1,33 @@
-From GV Require Import Pool.Model Pool.Observe Pool.Monitors.
+From GV Require Import Pool.Model Pool.Observe Pool.Monitors Pool.Inv Pool.Inv2 Pool.InvC05.
+
+(* C05: no operation of the balancer/picker model panics, for every history
+   (legal or not) and every map-iteration oracle.  Guard: fewer than 900000000
+   SubConns are created along the run (the monitor reserves larger numbers as
+   the harness' "unknown SubConn" sentinel for unblocked picks). *)
+Theorem C05_holds : forall raw ops,
+  (b_next (run_state raw init_bal ops) <= 900000000)%N ->
+  monitor P05 raw (observe init_bal) (run raw init_bal ops) = true.
+Proof. exact C05_holds_proof. Qed.
+Print Assumptions C05_holds.
+
+(* unguarded half: no event of any model run returns a panic *)
+Theorem C05_no_panic : forall raw ops ev, In ev (run raw init_bal ops) -> ev_ret ev <> RPanic.
+Proof. exact no_panic. Qed.
+Print Assumptions C05_no_panic.
+
+(* non-vacuity: a round-robin history with a blocked pick that is released *)
+Example c05_history :
+  let raw := Some (mkConfig 2 4 1 false 0 0 true [(1%N, mkMcfg BIND true)]) in
+  let ops := [(OpResolver 1 CfgVal, []); (OpConnState 0 Ready, []); (OpPick 0 1 true [] None false, []);
+              (OpPick 0 1 true [] None false, []); (OpConnState 1 Ready, [1; 0]%nat);
+              (OpDone 0 DOk [7%N], []); (OpPick 1 0 true [7%N] None false, [])] in
+  map ev_ret (run raw init_bal ops) = [RNone; RNone; RPicked 0; RBlocked; RNone; RNone; RPicked 0] /\
+  map ev_ub (run raw init_bal ops) = [[]; []; []; []; [(1%nat, 1%N)]; []; []] /\
+  monitor P05 raw (observe init_bal) (run raw init_bal ops) = true.
+Proof. vm_compute. repeat split; reflexivity. Qed.
+
+(* the monitor rejects a trace in which a Pick panics *)
+Example c05_bad_trace :
+  monitor P05 None (observe init_bal)
+    [mkEvent (OpPick 0 0 false [] None false) [] RPanic [] None] = false.
+Proof. vm_compute. reflexivity. Qed.
